@@ -113,6 +113,11 @@ func (r *Reconciler) Reconcile(ctx context.Context, request reconcile.Request) (
 	// now apply the strategy depending on the ReplicaSet state
 	strategyResult, err := r.applyStrategy(reqLogger, daemonsetInstance, now, strategyParams)
 	newStatus := strategyResult.NewStatus
+	if newStatus == nil {
+		// the strategy stopped before computing a status (one of its values could not be resolved):
+		// the error is recorded on the status prepared for it
+		newStatus = strategyParams.NewStatus
+	}
 	result := strategyResult.Result
 
 	// for the reste of the actions we will try to execute as many actions as we can so we will store possible errors in a list
